@@ -46,6 +46,11 @@ func verifC19_write() {
 	}
 	doc := vDocs[websocket.VerifChoose("doc", len(vDocs))]
 	v := json.RawMessage(doc)
+	if websocket.VerifChoose("nilRaw", 2) == 1 {
+		// a nil RawMessage is a value with an encoding of its own: null
+		v = nil
+		doc = "null"
+	}
 	err := Write(context.Background(), c, v)
 	websocket.VerifReach("C19.write.done")
 	websocket.VerifAssert(err == nil, "C19.write.noerr")
@@ -53,7 +58,8 @@ func verifC19_write() {
 	websocket.VerifAssert(ok && len(payloads) == 1, "C19.write.one-message")
 	if ok && len(payloads) == 1 {
 		websocket.VerifAssert(texts[0], "C19.write.text-type")
-		websocket.VerifAssert(string(payloads[0]) == doc+"\n", "C19.write.payload-is-encoding")
+		// (the encoder's trailing newline is white space: with or without it the payload is the value's encoding)
+		websocket.VerifAssert(string(payloads[0]) == doc+"\n" || string(payloads[0]) == doc, "C19.write.payload-is-encoding")
 	}
 	c.CloseNow()
 	websocket.VerifObserve("write", websocket.VerifWireSummary(out()))
@@ -65,16 +71,25 @@ func verifC19_read() {
 	client := websocket.VerifParam("client", 1) == 1
 	websocket.VerifGhostPoolMode(0) // pool hits: the second read reuses the first read's buffer
 	websocket.VerifGhostPoolMonitor(true)
-	d1 := vDocs[websocket.VerifChoose("doc1", len(vDocs))]
-	bad := websocket.VerifChoose("bad", 2) == 1
-	var d2 string
+	var d1, d2 string
+	bad := false
+	bytesTarget := false
 	if websocket.VerifParam("typed", 0) == 1 {
 		d1 = vIntDocs[websocket.VerifChoose("idoc1", len(vIntDocs))]
-		d2 = vBadIntDocs[websocket.VerifChoose("idoc2", len(vBadIntDocs))]
-	} else if bad {
-		d2 = vBadDocs[websocket.VerifChoose("doc2", len(vBadDocs))]
+		bytesTarget = websocket.VerifChoose("bytesTarget", 2) == 1
+		if bytesTarget {
+			d2 = vBadBytesDocs[websocket.VerifChoose("bdoc2", len(vBadBytesDocs))]
+		} else {
+			d2 = vBadIntDocs[websocket.VerifChoose("idoc2", len(vBadIntDocs))]
+		}
 	} else {
-		d2 = vDocs[websocket.VerifChoose("doc2", len(vDocs))]
+		d1 = vDocs[websocket.VerifChoose("doc1", len(vDocs))]
+		bad = websocket.VerifChoose("bad", 2) == 1
+		if bad {
+			d2 = vBadDocs[websocket.VerifChoose("doc2", len(vBadDocs))]
+		} else {
+			d2 = vDocs[websocket.VerifChoose("doc2", len(vDocs))]
+		}
 	}
 	var cuts1 []int
 	if websocket.VerifChoose("frag", 2) == 1 {
@@ -84,7 +99,7 @@ func verifC19_read() {
 	c, out := websocket.VerifScriptedConn(client, msgs, websocket.VerifChoose("step", 2))
 	var v1, v2 json.RawMessage
 	if websocket.VerifParam("typed", 0) == 1 {
-		verifC19ReadTyped(c, out)
+		verifC19ReadTyped(c, out, bytesTarget)
 		return
 	}
 	err1 := Read(context.Background(), c, &v1)
@@ -113,17 +128,28 @@ func verifC19_read() {
 }
 
 var vIntDocs = []string{`12`, `-7`}
-var vBadIntDocs = []string{`"x"`, `1.5`, `{"a":1}`, `[1]`, `99999999999999999999`,
+// documents that are invalid for a []byte target: strings that are not base64, and other kinds of value
+var vBadBytesDocs = []string{`"x"`, `"@@@@"`, `1.5`, `{"a":1}`}
+
+var vBadIntDocs = []string{`"x"`, `"@@@@"`, `1.5`, `{"a":1}`, `[1]`, `99999999999999999999`,
 	`111111111111111111111111111111111111111111111111111111111111111111111111111111111111111111111111111111111111111111111111111111111111111111111111111111`}
 
 // typed targets: a document that is valid JSON but not valid for the target (wrong type, out of range -- the decoder's
 // error text then echoes the literal, however long) is an error and closes with 1007 like any other invalid message.
-func verifC19ReadTyped(c *websocket.Conn, out func() []byte) {
+func verifC19ReadTyped(c *websocket.Conn, out func() []byte, bytesTarget bool) {
 	var n1, n2 int
 	err1 := Read(context.Background(), c, &n1)
 	websocket.VerifReach("C19.read.typed-first")
 	websocket.VerifAssert(err1 == nil && (n1 == 12 || n1 == -7), "C19.read.typed-first-value")
-	err2 := Read(context.Background(), c, &n2)
+	var err2 error
+	if bytesTarget {
+		// a []byte target: the second document is a JSON string or not, but never base64 - invalid for the target with
+		// an error that is neither a syntax error nor a type error of the decoder
+		var b2 []byte
+		err2 = Read(context.Background(), c, &b2)
+	} else {
+		err2 = Read(context.Background(), c, &n2)
+	}
 	websocket.VerifReach("C19.read.typed-invalid")
 	websocket.VerifAssert(err2 != nil, "C19.read.invalid-is-error")
 	code, n := websocket.VerifCloseCode(out())
